@@ -3,6 +3,7 @@
 package harness
 
 import (
+	"compress/gzip"
 	"context"
 	"fmt"
 	"net"
@@ -22,7 +23,7 @@ import (
 // HTTP client and transport, which the scripted-transport jobs replace), against real HTTP servers on loopback
 // that stand in for the providers (real clock, a few hundred milliseconds per case).
 func TestC18ProductionClient(t *testing.T) {
-	rec := NewRecorder("C18", "C18ProductionClient", "enumeration, real clock, real HTTP over loopback: the fetcher from the plain constructor against five provider servers whose answers are plain / padded IPv4, compressed and full-notation IPv6 (up to 39 characters, with leading blank lines), sent at once, in two flushes (chunked), behind a redirect, or with status 404 / 200 + invalid body on the earlier providers; oracle: the address returned is exactly the first valid provider answer, later providers are not asked, a second call is served from the cache without any request; exhaustive over that table")
+	rec := NewRecorder("C18", "C18ProductionClient", "enumeration, real clock, real HTTP over loopback: the fetcher from the plain constructor against five provider servers whose answers are plain / padded IPv4, compressed and full-notation IPv6 (up to 39 characters, with leading blank lines), sent at once, in two flushes (chunked), gzip-coded, behind a redirect, or with status 404 / 200 + invalid body on the earlier providers; oracle: the address returned is exactly the first valid provider answer, later providers are not asked, a second call is served from the cache without any request; exhaustive over that table")
 	rec.Exhaustive = true
 	type prodCase struct {
 		Name   string   `json:"name"`
@@ -39,6 +40,8 @@ func TestC18ProductionClient(t *testing.T) {
 		{"ipv4-two-flushes", []string{"203.0.113.45\n"}, "chunked"},
 		{"ipv6-two-flushes", []string{full6 + "\n"}, "chunked"},
 		{"ipv4-redirect", []string{"203.0.113.46\n"}, "redirect"},
+		{"ipv4-gzip", []string{"203.0.113.47\n", "198.51.100.9\n"}, "gzip"},
+		{"ipv6-gzip-only-provider", []string{full6 + "\n"}, "gzip"},
 		{"second-provider", []string{"", "198.51.100.7\n"}, "plain"},
 		{"third-provider-after-invalid", []string{"!<html>no</html>", "", "2a01:cb00:12:3400:5678:9abc:def0:1234\n"}, "plain"},
 		{"long-valid-then-short", []string{"   " + full6 + "\n", "192.0.2.99\n"}, "plain"},
@@ -73,6 +76,12 @@ func TestC18ProductionClient(t *testing.T) {
 					fmt.Fprint(w, body[1:])
 				case c.Mode == "redirect" && r.URL.Path != "/final":
 					http.Redirect(w, r, "/final", http.StatusFound)
+				case c.Mode == "gzip" && i == 0:
+					// a provider (or a CDN in front of it) that compresses whatever the request says it accepts
+					w.Header().Set("Content-Encoding", "gzip")
+					zw := gzip.NewWriter(w)
+					fmt.Fprint(zw, body)
+					zw.Close()
 				case c.Mode == "chunked":
 					k := len(body) / 2
 					fmt.Fprint(w, body[:k])
